@@ -2,6 +2,8 @@
 
 All randomness comes from the `random.Random` handed in (seeded from VERIF_SEED).
 """
+import copy
+
 from ref import p2p as RP
 
 U32 = 0xffffffff
@@ -87,12 +89,20 @@ def gen_wit(rng, nin, big_ok=False, mode=None):
 
 
 def gen_tx(rng, max_in=4, max_out=4, big_ok=False, wit_mode=None, many=False):
-    if many and rng.random() < 0.05:
-        nin = rng.choice([0xfc, 0xfd, 0xfe])
+    if many and rng.random() < 0.06:
+        # counts around the CompactSize boundary (252/253/254) and around 256/257 (where small-integer
+        # identity stops holding in CPython), with and without witness data
+        nin = rng.choice([0xfc, 0xfd, 0xfe, 0xff, 0x100, 0x101, 300])
         nout = rng.randint(0, 2)
         vin = [{'hash': gen_hash(rng), 'n': rng.randint(0, 5), 'script': '', 'seq': U32} for _ in range(nin)]
         vout = [gen_txout(rng) for _ in range(nout)]
-        wit = gen_wit(rng, nin, False, rng.choice(['none', 'none', 'empty']))
+        wm = rng.choice(['none', 'none', 'empty', 'sparse', 'sparse'])
+        if wm == 'sparse':
+            wit = [[] for _ in range(nin)]
+            for k in {0, nin - 1, rng.randrange(nin)} if rng.random() < 0.5 else {rng.randrange(nin)}:
+                wit[k] = [rhex(rng, rng.randint(0, 3))]
+        else:
+            wit = gen_wit(rng, nin, False, wm)
     elif many and rng.random() < 0.05:
         nin = rng.randint(1, 2)
         nout = rng.choice([0xfc, 0xfd, 0xfe])
@@ -126,6 +136,12 @@ def gen_block(rng, max_tx=4, big_ok=False, many=False, valid_merkle=True):
     else:
         ntx = rng.randint(0, max_tx)
         txs = [gen_tx(rng, 3, 3, big_ok) for _ in range(ntx)]
+        if len(txs) >= 2 and rng.random() < 0.12:
+            # the same transaction twice, side by side (what a merkle-mutated block looks like on the wire)
+            k = rng.randrange(1, len(txs))
+            txs.insert(k, copy.deepcopy(txs[k]))
+            if rng.random() < 0.5 and len(txs) % 2:
+                txs.insert(1, copy.deepcopy(txs[1]))
     h['txs'] = txs
     if txs and (valid_merkle or rng.random() < 0.6):
         h['merkle'] = wire.block_merkle(h).hex()
